@@ -15,6 +15,7 @@ from .common import FIELD, MESH, REGION
 from .c01 import each, _single_return
 
 FLOOR = 45
+CLOSURE_ROOTS = ['field.Field.rotate90', 'field.Field.orientation']   # the statement speaks about quarter-turn rotations of the sample and about unit vectors (sa/shared.py)
 ANCHORS = [
     'tools.tools.topological_charge_density',
     'tools.tools.topological_charge',
